@@ -491,7 +491,6 @@ type c20Spec struct {
 	Want    map[string]int  // key -> multiplicity
 	Unclear map[string]bool // keys whose condition is within the year-approximation margin
 	Multi   map[string]bool // pair keys that are reachable through more than one CHIL line / family
-	Known   map[string]string // keys whose unwarranted report is a known finding (matcher)
 }
 
 func c20Group(kind string) int {
@@ -1333,9 +1332,6 @@ func c20CheckSpec(c *Ctx, d *c20Doc, obs c20Obs, input map[string]interface{}, l
 		case n == w:
 		case w == 1 && n > 1 && spec.Multi[k]:
 			knownDiffs = append(knownDiffs, fmt.Sprintf("%s reported %d times", k, n))
-		case w == 0 && spec.Known[k] != "":
-			c.Oracle(spec.Known[k], "siblings whose births are about 292 years apart are reported as born too close: the difference of the last days of the two births leaves time.Duration, Time.Sub saturates at the minimum, NewDuration's negation leaves it negative and 'negative < nine months' holds",
-				input, "unwarranted: "+k, "no warning: the births are more than 106751 days apart")
 		case w == 0:
 			diffs = append(diffs, "unwarranted: "+k)
 		default:
